@@ -207,6 +207,9 @@ func registerCLI(e *Engine) {
 		if o.data == "dir" {
 			return Num{c: int64(os.ModeDir)}
 		}
+		if o.data == "special" {
+			return Num{c: int64(os.ModeDevice | os.ModeCharDevice)}
+		}
 		return Num{c: 0}
 	}
 	in["(*os.fileStat).IsDir"] = func(m *Machine, fr *frame, a []Value) Value {
@@ -228,6 +231,9 @@ func registerCLI(e *Engine) {
 			return Tuple{Iface{t: fst, v: &Opaque{kind: "fileinfo", data: "dir"}}, Iface{}}
 		case "staterror":
 			return Tuple{Iface{t: fst, v: (*Opaque)(nil)}, m.osError("stat: permission denied", false)}
+		case "special":
+			// a device / FIFO such as /dev/null: exists, neither regular nor a directory
+			return Tuple{Iface{t: fst, v: &Opaque{kind: "fileinfo", data: "special"}}, Iface{}}
 		}
 		fi := &Opaque{kind: "fileinfo", data: "file"}
 		if m.fileInfos == nil {
@@ -262,6 +268,9 @@ func registerCLI(e *Engine) {
 		case "file":
 			c := ent.content
 			return Tuple{Slice{rope: &c}, Iface{}}
+		case "special":
+			// reads back empty whatever was written to it (/dev/null)
+			return Tuple{Slice{rope: &Str{}}, Iface{}}
 		case "absent", "noparent":
 			m.envFail("readfile")
 			return Tuple{Slice{}, m.osError("open: no such file or directory", true)}
@@ -281,6 +290,9 @@ func registerCLI(e *Engine) {
 		if m.job != nil && m.job.Params["writeFileMayFail"] == "yes" && m.choose(2, nil) == 1 {
 			m.envFail("writefile")
 			return m.osError("write: no space left on device", false)
+		}
+		if ent.kind == "special" {
+			return Iface{} // accepted and discarded
 		}
 		ent.kind = "file"
 		ent.content = data
